@@ -27,6 +27,12 @@
            automatic objects are exception-safe, a plain increment ... decrement around a throwing call is not).
            R-C16-6/7 have no instance on the pinned tree; drivers/c16_positive.cpp holds known-bad examples that must be
            reported on every run.
+  R-C16-8  whitespace tolerance: at the delimiters of a tag head / header (=, opening quote, /, >, ?>) the cursor is known not
+           to stand on one of the parser's whitespace bytes (facts of the R-C16-1 interpreter; `!isWhite(*s)` is learned through
+           the predicate's accepted byte set).  Obligations are a frozen table (function, delimiter, kind of site) read off the
+           pinned tree; a site that moved is looked for in the other functions, a site that vanished is undecided.
+  R-C16-9  writes through buffers the parser allocates itself (char a[N], new char[n]) stay inside them: index < size and
+           length <= size from linear forms and the comparisons that guard the path (CFG exploration, ?: arms tracked).
 """
 import re
 
